@@ -155,8 +155,8 @@ func HarnessC12Par(onceForm, maxSwitches int) {
 		return
 	}
 	// the target returns an uninterpreted function of what it received
-	aFirst := vnUF("f0o0", vnUF("f1o0", x1))
-	bFirst := vnUF("f0o0", vnUF("f1o0", x2))
+	aFirst := vnUF("f0o0", vnUF("f1o0", x1, 1))
+	bFirst := vnUF("f0o0", vnUF("f1o0", x2, 1))
 	seqAB := vnAnd(ids1[0].ID == aFirst, ids2[0].ID == aFirst)
 	seqBA := vnAnd(ids1[0].ID == bFirst, ids2[0].ID == bFirst)
 	vnAssert(vnOr(seqAB, seqBA), "C12.par.outcomes-are-sequentially-possible")
